@@ -76,6 +76,7 @@ type lockInfo struct {
 type World struct {
 	// calls hit by an injected I/O fault / of those, calls that returned an error
 	FaultedCalls, FaultErrors int
+	inViewMon                 bool
 	Dir   string
 	Cfg   reftable.Config
 	GCfg  gen.Cfg
